@@ -839,4 +839,181 @@ theorem nqParseline_refines (line : Str) (r : Option Quad) (hnl : '\n' ∉ line)
                 exact hf
               · cases h
 
+/-! ### documents: `readline` / `parse()` against [1] ntriplesDoc, [7] EOL -/
+
+theorem splitLines_pre : ∀ (pre : Str), noEol pre = true → splitLines pre = [pre]
+  | [], _ => rfl
+  | c :: pre, h => by
+    rw [noEol_cons] at h
+    simp only [Bool.and_eq_true, Bool.not_eq_true', isEol, Bool.or_eq_false_iff, beq_eq_false_iff_ne, ne_eq] at h
+    simp [splitLines, h.1.1, h.1.2, splitLines_pre pre h.2]
+
+theorem splitLines_eol : ∀ (pre : Str) (e : Char) (rest : Str), noEol pre = true → (e = '\n' ∨ e = '\r') →
+    splitLines (pre ++ e :: rest) = pre :: splitLines rest
+  | [], e, rest, _, he => by simp [splitLines, he]
+  | c :: pre, e, rest, h, he => by
+    rw [noEol_cons] at h
+    simp only [Bool.and_eq_true, Bool.not_eq_true', isEol, Bool.or_eq_false_iff, beq_eq_false_iff_ne, ne_eq] at h
+    simp [splitLines, h.1.1, h.1.2, splitLines_eol pre e rest h.2 he]
+
+theorem collect_cons {α} (f : Str → Option (Option α)) (l : Str) (ls : List Str) (ts : List α)
+    (h : collect f (l :: ls) = some ts) :
+    ∃ r ts', f l = some r ∧ collect f ls = some ts' ∧ ts = r.toList ++ ts' := by
+  simp only [collect] at h
+  split at h
+  · cases h
+  · rename_i hf
+    exact ⟨none, ts, hf, h, rfl⟩
+  · rename_i t hf
+    cases hc : collect f ls with
+    | none => simp [hc] at h
+    | some ts' =>
+      simp only [hc, Option.map_some, Option.some.injEq] at h
+      exact ⟨some t, ts', hf, rfl, by simp [← h]⟩
+
+theorem parseAll_cons {β} (g : Str → Except Err (Option β)) (l : Str) (ls : List Str) (r : Option β) (us : List β)
+    (hg : g l = .ok r) (hp : parseAll g ls = .ok us) : parseAll g (l :: ls) = .ok (r.toList ++ us) := by
+  cases r with
+  | none => simp [parseAll, hg, hp]
+  | some t => simp [parseAll, hg, hp]
+
+theorem noEol_no_lf {s : Str} (h : noEol s = true) : '\n' ∉ s := by
+  intro hm
+  have := List.all_eq_true.mp h '\n' hm
+  revert this; decide
+
+/-- the generic step: a line reader `f` of the grammar, a `parseline` model `g` that refines it on LF-free lines,
+    an empty line is skipped by `f`, and a line `f` reads as a statement is not white space only -/
+theorem parseAll_refines {α β} (f : Str → Option (Option α)) (g : Str → Except Err (Option β)) (cd : α → β)
+    (hfg : ∀ line r, '\n' ∉ line → f line = some r → g line = .ok (r.map cd))
+    (hblank : f [] = some none)
+    (hspace : ∀ line t, f line = some (some t) → line.all pyIsSpace = false) :
+    ∀ (doc cur : Str) (ts : List α), noEol cur = true →
+      collect f (splitLines (cur.reverse ++ doc)) = some ts →
+      parseAll g (pyLinesAux cur doc) = .ok (ts.map cd)
+  | [], cur, ts, hcur, h => by
+    have hrev : noEol cur.reverse = true := by simpa [noEol] using hcur
+    rw [List.append_nil, splitLines_pre _ hrev] at h
+    obtain ⟨r, ts', hf, hc, hts⟩ := collect_cons f _ _ ts h
+    simp only [collect, Option.some.injEq] at hc
+    subst hc
+    have hg := hfg _ r (noEol_no_lf hrev) hf
+    simp only [pyLinesAux]
+    split
+    · rename_i hdrop
+      cases r with
+      | none => simp [hts, parseAll]
+      | some t =>
+        exfalso
+        simp only [Bool.or_eq_true, List.isEmpty_iff] at hdrop
+        rcases hdrop with hd | hd
+        · subst hd
+          rw [List.reverse_nil, hblank] at hf
+          cases hf
+        · have := hspace _ t hf
+          rw [List.all_reverse, hd] at this
+          cases this
+    · have := parseAll_cons g cur.reverse [] (r.map cd) [] hg rfl
+      rw [this, hts]
+      cases r <;> simp
+  | c :: cs, cur, ts, hcur, h => by
+    have hrev : noEol cur.reverse = true := by simpa [noEol] using hcur
+    by_cases hr : c = '\r'
+    · subst hr
+      rw [splitLines_eol _ _ _ hrev (Or.inr rfl)] at h
+      obtain ⟨r, ts', hf, hc, hts⟩ := collect_cons f _ _ ts h
+      have hg := hfg _ r (noEol_no_lf hrev) hf
+      have ih := parseAll_refines f g cd hfg hblank hspace cs [] ts' rfl (by simpa using hc)
+      have hgoal : parseAll g (cur.reverse :: pyLinesAux [] cs) = .ok (ts.map cd) := by
+        rw [parseAll_cons g _ _ _ _ hg ih, hts]
+        cases r <;> simp
+      cases cs with
+      | nil => simpa [pyLinesAux] using hgoal
+      | cons d cs' =>
+        by_cases hd : d = '\n'
+        · subst hd
+          -- CR LF: one line end for `readline`; for the grammar an empty line in between, which `f` skips
+          have e1 : pyLinesAux cur ('\r' :: '\n' :: cs') = cur.reverse :: pyLinesAux [] cs' := by
+            have e : ('\n' = '\r') = False := by decide
+            simp [pyLinesAux, e]
+          have e2 : pyLinesAux [] ('\n' :: cs') = [] :: pyLinesAux [] cs' := by
+            have e : ('\n' = '\r') = False := by decide
+            simp [pyLinesAux, e]
+          have hg0 : g [] = .ok none := hfg [] none (by simp) hblank
+          rw [e2] at ih
+          have ih' : parseAll g (pyLinesAux [] cs') = .ok (ts'.map cd) := by
+            simpa [parseAll, hg0] using ih
+          rw [e1, parseAll_cons g _ _ _ _ hg ih', hts]
+          cases r <;> simp
+        · have e1 : pyLinesAux cur ('\r' :: d :: cs') = cur.reverse :: pyLinesAux [] (d :: cs') := by
+            simp only [pyLinesAux, if_true]
+            split
+            · rename_i heq
+              simp only [List.cons.injEq] at heq
+              exact absurd heq.1.symm (fun e => hd e.symm)
+            · rfl
+          rw [e1]; exact hgoal
+    · by_cases hn : c = '\n'
+      · subst hn
+        rw [splitLines_eol _ _ _ hrev (Or.inl rfl)] at h
+        obtain ⟨r, ts', hf, hc, hts⟩ := collect_cons f _ _ ts h
+        have hg := hfg _ r (noEol_no_lf hrev) hf
+        have ih := parseAll_refines f g cd hfg hblank hspace cs [] ts' rfl (by simpa using hc)
+        have e : ('\n' = '\r') = False := by decide
+        simp only [pyLinesAux, e, if_false, if_true]
+        rw [parseAll_cons g _ _ _ _ hg ih, hts]
+        cases r <;> simp
+      · have hcur' : noEol (c :: cur) = true := by
+          rw [noEol_cons, hcur]
+          simp [isEol, hr, hn]
+        have ih := parseAll_refines f g cd hfg hblank hspace cs (c :: cur) ts hcur' (by simpa using h)
+        simpa [pyLinesAux, hr, hn] using ih
+
+theorem readTerm_head (pos : Pos) (cs : Str) (x : Term × Str) (h : readTerm pos cs = some x) :
+    ∃ c r, cs = c :: r ∧ pyIsSpace c = false := by
+  unfold readTerm at h
+  split at h
+  · exact ⟨_, _, rfl, by decide⟩
+  · exact ⟨_, _, rfl, by decide⟩
+  · exact ⟨_, _, rfl, by decide⟩
+  · cases h
+
+theorem all_false_of_mem {c : Char} {s : Str} (hm : c ∈ s) (hc : pyIsSpace c = false) : s.all pyIsSpace = false := by
+  cases h : s.all pyIsSpace with
+  | false => rfl
+  | true => rw [List.all_eq_true.mp h c hm] at hc; cases hc
+
+theorem nt_statement_not_space (line : Str) (t : Triple) (h : NT.parseLine line = some (some t)) :
+    line.all pyIsSpace = false := by
+  unfold NT.parseLine at h
+  split at h
+  · cases h
+  · split at h
+    · cases h
+    · rename_i s r1 h1
+      obtain ⟨c, r, hc, hsp⟩ := readTerm_head _ _ _ h1
+      exact all_false_of_mem (skipWs_subset line (by rw [hc]; simp)) hsp
+
+theorem nq_statement_not_space (line : Str) (t : Quad) (h : NQ.parseLine line = some (some t)) :
+    line.all pyIsSpace = false := by
+  unfold NQ.parseLine at h
+  split at h
+  · cases h
+  · split at h
+    · cases h
+    · rename_i s r1 h1
+      obtain ⟨c, r, hc, hsp⟩ := readTerm_head _ _ _ h1
+      exact all_false_of_mem (skipWs_subset line (by rw [hc]; simp)) hsp
+
+theorem ntParse_refines (doc : Str) (ts : List Triple) (h : NT.parseDoc doc = some ts) :
+    ntParse doc = .ok (ts.map codeTriple) :=
+  parseAll_refines NT.parseLine ntParseline codeTriple ntParseline_refines (by decide) nt_statement_not_space
+    doc [] ts rfl (by simpa [NT.parseDoc] using h)
+
+theorem nqParse_refines (doc : Str) (qs : List Quad) (h : NQ.parseDoc doc = some qs) :
+    nqParse doc = .ok (qs.map codeQuad) :=
+  parseAll_refines NQ.parseLine nqParseline codeQuad nqParseline_refines (by decide) nq_statement_not_space
+    doc [] qs rfl (by simpa [NQ.parseDoc] using h)
+
+
 end RV.C05
